@@ -336,7 +336,13 @@ def oracle_window(ctx, n, kinds=('plain', 'gz')):
         ts = [t for _, _, t in log.msgs]
         kind = kinds[k % len(kinds)]
         path = os.path.join(ctx.work, 'c03_%d.log%s' % (k, e2e.SUFFIX[kind]))
-        e2e.pack(log.data, kind, path, inner_name='c03.log')
+        # every other file carries a modification time OLDER than its content (restored from backup, copied from a host whose clock lags,
+        # a gzip header MTIME taken from elsewhere): what a dated message's instant is does not depend on it (seeded change C03-e dismissed
+        # a file whose mtime lies before --dt-after)
+        old_mtime = ts[0] - 86400 * 400 if k % 2 == 1 else 0
+        e2e.pack(log.data, kind, path, inner_name='c03.log', mtime=old_mtime)
+        if old_mtime:
+            os.utime(path, (old_mtime, old_mtime))
         for _ in range(ctx.q(4, 10)):
             pick = lambda: rng.pick(ts) + rng.pick([-1, 0, 0, 0, 1])
             mode = rng.below(5)
